@@ -274,10 +274,12 @@ impl<'a> Ctx<'a> {
             }
             if eff.detached {
                 // no evaluation, at most one (i.e. no) result, execution continues
-                // (at most one result: whether there is one is not fixed by the properties)
-                tj.allowed = Allowed::Anything;
+                // (at most one result: whether there is one is not fixed by the properties - but
+                // scrut never learns how a detached command ended, so "succeeded" it cannot be)
+                tj.allowed = Allowed::NotSuccess;
+                tj.class = "passed-without-exit-code";
                 tj.detached = true;
-                tj.why = "detached".into();
+                tj.why = "detached: scrut does not wait for it and has no exit code to judge".into();
                 j.tests.push(tj);
                 continue;
             }
